@@ -19,7 +19,7 @@ import (
 	"verif/harness/vlib"
 )
 
-var roles = []string{"unconnected", "child-of-dead-parents", "spouse-of-dead", "parent-of-dead-child", "shares-surname-with-dead", "shares-surname-sorts-first", "shares-place-with-dead",
+var roles = []string{"unconnected", "child-of-dead-parents", "spouse-of-dead", "parent-of-dead-child", "shares-surname-with-dead", "shares-surname-sorts-first", "shares-place-with-dead", "spouse-of-dead-with-dead-child",
 	"no-birth-at-all", "buried-but-no-death", "two-names", "source-citation", "nickname-and-note", "birth-date-phrase", "birth-date-without-year", "birth-date-empty"}
 
 // person block of a living person with marker prefix mk (e.g. "Zq7L") in a role; variant changes all personal data (for the hide differential).
@@ -127,8 +127,11 @@ func document(rolesOf []string, variant int) (string, [][]string) {
 			fam1 = append(fam1, "1 CHIL @"+p.ptr+"@")
 			lines = append(lines, "1 FAMC @F1@")
 		case "spouse-of-dead":
-			extraFams = append(extraFams, fmt.Sprintf("0 @FS%d@ FAM", i), "1 HUSB @D3@", "1 WIFE @"+p.ptr+"@")
+			extraFams = append(extraFams, fmt.Sprintf("0 @FS%d@ FAM", i), "1 HUSB @D3@", "1 WIFE @"+p.ptr+"@", "1 MARR", fmt.Sprintf("2 DATE 1 Jun %d", year+25))
 			lines = append(lines, fmt.Sprintf("1 FAMS @FS%d@", i))
+		case "spouse-of-dead-with-dead-child":
+			extraFams = append(extraFams, fmt.Sprintf("0 @FC%d@ FAM", i), "1 HUSB @D3@", "1 WIFE @"+p.ptr+"@", "1 CHIL @D4@", "1 MARR", "2 DATE 1 Jun 1859")
+			lines = append(lines, fmt.Sprintf("1 FAMS @FC%d@", i))
 		case "parent-of-dead-child":
 			extraFams = append(extraFams, fmt.Sprintf("0 @FP%d@ FAM", i), "1 WIFE @"+p.ptr+"@", "1 CHIL @D4@")
 			lines = append(lines, fmt.Sprintf("1 FAMS @FP%d@", i))
@@ -273,6 +276,43 @@ func judge(k kase) (sigs [][2]string, crashed int, files int) {
 			}
 			if !found {
 				add("dead-person-page-missing", fmt.Sprintf("no page for %s (%s, mask %d)", given, k.Living, k.Mask))
+			}
+		}
+	}
+	// people who are not living remain fully published: what the site says about dead people on their
+	// own pages and in the lists of individuals with -living show, it also says in the other modes
+	if k.Living != "show" && k.Prior == "" {
+		ks := k
+		ks.Living = "show"
+		ws, _, _ := publish(ks, 0)
+		here := map[string]string{}
+		for _, p := range pages {
+			here[p.Name] = norm(p.Body)
+		}
+		for _, sp := range ws.Sorted() {
+			n := norm(sp.Name)
+			own := strings.HasPrefix(n, "zq7dgiven")
+			if !(own || strings.HasPrefix(n, "individuals-")) || sp.Panic != "" {
+				continue
+			}
+			sb := norm(sp.Body)
+			for _, dm := range deadMarkers {
+				m := norm(dm)
+				if !strings.Contains(sb, m) {
+					continue
+				}
+				hb, ok := here[sp.Name]
+				kind := "individual-list"
+				if own {
+					kind = "dead-individual-page"
+				}
+				if !ok {
+					add("dead-person-less-published-than-with-show:page-missing:"+kind, fmt.Sprintf("%s exists with -living show and mentions the dead person's %s, but is not generated with -living %s (roles %v, mask %d)", sp.Name, dm, k.Living, k.Roles, k.Mask))
+					break
+				}
+				if !strings.Contains(hb, m) && !crashedPage(pages, n) {
+					add("dead-person-less-published-than-with-show:"+kind+":"+markerKind(dm), fmt.Sprintf("%s mentions the dead person's %s with -living show but not with -living %s (roles %v, mask %d)", sp.Name, dm, k.Living, k.Roles, k.Mask))
+				}
 			}
 		}
 	}
@@ -443,7 +483,7 @@ func main() {
 	vlib.Main(&vlib.Check{
 		ID:    "C17",
 		Level: "exploration",
-		Rule: "cases: a fixed cast of four dead people plus one living person in each of 15 roles (unconnected, child of dead parents, spouse of a dead person, parent of a dead child, sharing a dead person's surname and sorting after / before its dead bearers, sharing a dead person's place, no birth recorded, buried but no death, two names, source citation, nickname and note, birth date that is a phrase / has no year / is empty) and every pair of roles (two living people); every personal string is a unique marker token; x {hide, placeholder} x all 64 page-group subsets (role pairs: 4 subsets in the quick tier) x jobs {1,2}; 'show' as the positive control; and the same document object published with 'show' first (page groups all / individuals+families). Marker search over every file name, body and link; hide differential (a second document that differs only in the living people's data must publish byte-identically); dead people's pages must exist with their names. " +
+		Rule: "cases: a fixed cast of four dead people plus one living person in each of 16 roles (unconnected, child of dead parents, spouse of a dead person, parent of a dead child, sharing a dead person's surname and sorting after / before its dead bearers, wife of a dead man with a dead child, sharing a dead person's place, no birth recorded, buried but no death, two names, source citation, nickname and note, birth date that is a phrase / has no year / is empty) and every pair of roles (two living people); every personal string is a unique marker token; x {hide, placeholder} x all 64 page-group subsets (role pairs: 4 subsets in the quick tier) x jobs {1,2}; 'show' as the positive control; and the same document object published with 'show' first (page groups all / individuals+families). Marker search over every file name, body and link; hide differential (a second document that differs only in the living people's data must publish byte-identically); dead people's pages must exist with their names, and every dead person's marker that a dead person's page or a list of individuals shows with 'show' is also there with hide/placeholder. " +
 			"Non-trivial = hide/placeholder cases with at least one page group; distinct by case.",
 		Assumptions: []string{
 			"living = born (current year - 40) without DEAT, or no birth at all; dead = born 1800-1860 with DEAT; nobody is within decades of the 100-year rule, so nothing depends on the day the check runs",
